@@ -139,7 +139,8 @@ class WeightedProbabilityBasedSquaredError(ProbabilityBasedLossFunction):
         self, mode_weight: str, data: List[Tuple[int, np.ndarray]]
     ) -> None:
         if mode_weight == "identity":
-            pass
+            # weights of an earlier configuration of this object must not survive
+            self.set_weight_matrices(None)
         elif mode_weight == "custom":
             self.set_weight_matrices(self.option.weights)
         elif (
